@@ -11,28 +11,31 @@ SWALLOW = ('ISERROR', 'COUNT')
 AGGR = ('SUM', 'MAX', 'MIN')
 
 
-def occurrences(e, conds=(), icpt=False, swallowed=False, agg=False):
+def occurrences(e, conds=(), icpt=False, swallowed=False, agg=False,
+                weak=False):
     """Yield (ref_or_name_node, conds, intercepted, swallowed) per occurrence.
 
     conds        lazy conditions under which the occurrence is evaluated
     intercepted  inside the value argument of IFERROR / IFNA
     swallowed    inside ISERROR(...) / COUNT(...): consumed, error not passed
+    weak         a later IFS condition: consumed by the cycle analysis, but an
+                 error in it shows only if every earlier condition is false
     """
     k = e[0]
     if k in ('r', 'nm'):
-        yield e, conds, icpt, swallowed, agg
+        yield e, conds, icpt, swallowed, agg, weak
     elif k == 'op':
         for x in e[2:]:
-            yield from occurrences(x, conds, icpt, swallowed)
+            yield from occurrences(x, conds, icpt, swallowed, False, weak)
     elif k == 'f':
         fn, a = e[1], e[2:]
         if fn == 'IF' and len(a) >= 2:
-            yield from occurrences(a[0], conds, icpt, swallowed)
+            yield from occurrences(a[0], conds, icpt, swallowed, False, weak)
             yield from occurrences(a[1], conds + (('if', a[0], True),),
-                                   icpt, swallowed)
+                                   icpt, swallowed, False, weak)
             if len(a) > 2:
                 yield from occurrences(a[2], conds + (('if', a[0], False),),
-                                       icpt, swallowed)
+                                       icpt, swallowed, False, weak)
         elif fn == 'IFS':
             acc = conds
             for i in range(0, len(a) - 1, 2):
@@ -41,21 +44,22 @@ def occurrences(e, conds=(), icpt=False, swallowed=False, agg=False):
                 # *branches* only); values are lazy
                 # (an error in a later condition is only seen if every
                 # earlier condition is false: not an always-propagating edge)
-                yield from occurrences(a[i], conds, icpt, swallowed or i > 0)
+                yield from occurrences(a[i], conds, icpt, swallowed, False,
+                                       weak or i > 0)
                 yield from occurrences(a[i + 1], acc + (('if', a[i], True),),
-                                       icpt, swallowed)
+                                       icpt, swallowed, False, weak)
                 acc = acc + (('if', a[i], False),)
         elif fn in INTERCEPT_ARG0 and len(a) == 2:
-            yield from occurrences(a[0], conds, True, swallowed)
+            yield from occurrences(a[0], conds, True, swallowed, False, weak)
             yield from occurrences(a[1], conds + (('iferr', a[0], fn),),
-                                   icpt, swallowed)
+                                   icpt, swallowed, False, weak)
         elif fn in SWALLOW:
             for x in a:
-                yield from occurrences(x, conds, icpt, True)
+                yield from occurrences(x, conds, icpt, True, False, weak)
         else:
             for x in a:
                 yield from occurrences(x, conds, icpt, swallowed,
-                                       fn in AGGR)
+                                       fn in AGGR, weak)
 
 
 class Graph:
@@ -69,7 +73,7 @@ class Graph:
         for u, c in enumerate(world['cells']):
             if 'f' not in c:
                 continue
-            for ref, conds, icpt, sw, agg in occurrences(c['f']):
+            for ref, conds, icpt, sw, agg, weak in occurrences(c['f']):
                 r = ref if ref[0] == 'r' else world['names'][ref[1]]['t']
                 cells = rect_cells(r)
                 members = []
@@ -81,7 +85,7 @@ class Graph:
                     self.edge[u].setdefault(v, []).append({
                         'conds': conds, 'icpt': icpt, 'sw': sw,
                         'multi': len(cells) > 1, 'name': ref[0] == 'nm',
-                        'agg': agg})
+                        'agg': agg, 'weak': weak})
                 if len(cells) > 1:
                     self.ranges.append((u, members, tuple(r[1:])))
         self.dep = [sorted(d) for d in self.edge]
@@ -98,7 +102,8 @@ class Graph:
         # only under an aggregate; in an element-wise / scalar context the
         # fitting of the array decides which members are used)
         return any(not o['conds'] and not o['icpt'] and not o['sw'] and
-                   (not o['multi'] or o['agg']) for o in self.edge[u][v])
+                   not o['weak'] and (not o['multi'] or o['agg'])
+                   for o in self.edge[u][v])
 
     def intercepted_strict(self, u, v):
         """Always consumed, but in an error-absorbing position (value
